@@ -132,6 +132,35 @@ theorem c11_array_insertion_order (pre vs : List JVal) : addAll (.arr pre) vs = 
   | nil => simp [addAll]
   | cons v r ih => simp [addAll, addArrayElement, ih (pre ++ [v])]
 
+/-- [A] A duplicate is a WORKING tree, not only an equal-looking one: every operation of the access
+layer — add, get, has, remove on it as an object; append, index, remove, size on it as an array; the
+same through any path of getter steps into it (`getAt`/`setAt`: a child container of the duplicate);
+printing — behaves on `duplicate t` exactly as on `t`.  Hence `c11_object_access` and
+`c11_array_access` hold for duplicates and for containers inside them (in the implementation:
+`cJSON_Duplicate` must rebuild child/next/prev so that `add_item_to_array` can append). -/
+theorem c11_duplicate_behaves (t : JVal) :
+    (∀ k v, addToObject (duplicate t) k v = addToObject t k v) ∧
+    (∀ k, getFromObject (duplicate t) k = getFromObject t k) ∧
+    (∀ k, hasKey (duplicate t) k = hasKey t k) ∧
+    (∀ k, removeFromObject (duplicate t) k = removeFromObject t k) ∧
+    (∀ v, addArrayElement (duplicate t) v = addArrayElement t v) ∧
+    (∀ i, getArrayElement (duplicate t) i = getArrayElement t i) ∧
+    (∀ i, removeArrayElement (duplicate t) i = removeArrayElement t i) ∧
+    arraySize (duplicate t) = arraySize t ∧
+    (∀ p, getAt (duplicate t) p = getAt t p) ∧
+    (∀ p v, setAt (duplicate t) p v = setAt t p v) ∧
+    (∀ env fmt, printText env fmt (duplicate t) = printText env fmt t) := by
+  rw [duplicate_eq]
+  simp
+
+/-- [A] Operating through a borrowed pointer (a child reached by `get_from_object` /
+`get_array_element` steps) is coherent: after the child at a resolving path has been changed to
+`v'` (e.g. by an add into it), the same path yields `v'`.  With `c11_object_access` applied to the
+child this gives "added member found / read back / removed" for containers inside a tree. -/
+theorem c11_borrowed_ref_coherent (t c v' : JVal) (p : List Step) (h : getAt t p = .ok c) :
+    getAt (setAt t p v') p = .ok v' :=
+  getAt_setAt v' p t c h
+
 /-- [B, string part] every string literal the printer emits — for ANY byte string, with any text
 after it — is an RFC 8259 `string` for the independent recogniser `Rfc` (all control characters
 escaped, quote and backslash escaped, `\u` followed by four hex digits). -/
